@@ -175,7 +175,7 @@ contract('gnpy.topology.request.compare_reqs', name='gnpy.topology.request.compa
 # a request built without a route list gets a list of its own: the class-level default list is shared by nobody
 # (compute_path_dsjctn appends the destination to req.nodes_list / 'STRICT' to req.loose_list of every request)
 _DEFAULTS = dct(request_id=const(None), nodes_list=lst(), loose_list=lst(), bidir=const(False), effective_freq_slot=const(None))
-contract('gnpy.topology.topology_parameters.BaseParams.update_attr', props=['C16'],
+contract('gnpy.topology.topology_parameters.BaseParams.update_attr', props=['C16', 'C11', 'C12'],
          params={'self': obj('RequestParams', default_values=_DEFAULTS), 'kwargs': dct_k({'request_id': string(), 'bidir': boolean()})},
          requires=[('id_not_blank', "kwargs['request_id'] != ''")],     # blank texts count as not given
          ensures=[('own_route_lists', "self.nodes_list is not self.default_values['nodes_list'] and "
